@@ -23,7 +23,7 @@ import (
 //  2. `len(s) == 0` style tests of a string become `s == ""` / `s != ""`.
 func (p *Program) Normalise(b *Baseline) {
 	for _, pkg := range p.All {
-		n := &normaliser{p: p, pkg: pkg, info: pkg.TypesInfo, pure: map[*types.Func]int{}}
+		n := &normaliser{p: p, pkg: pkg, info: pkg.TypesInfo, pure: map[*types.Func]int{}, base: b}
 		n.in = &inliner{prog: p, pkg: pkg, info: pkg.TypesInfo}
 		// a function outside the inventory holds code moved from elsewhere: any defining expression
 		// of the package's inventory counts as known there
@@ -58,6 +58,7 @@ type normaliser struct {
 	info *types.Info
 	in   *inliner
 	pure map[*types.Func]int // 0 unknown, 1 pure, 2 impure, 3 in progress
+	base *Baseline
 }
 
 // canonLen rewrites length tests of strings against 0/1 into comparisons with "".
@@ -146,7 +147,7 @@ func (n *normaliser) substituteLocals(fd *ast.FuncDecl, q string, known map[stri
 		if known[exprKey(n.info, def.rhs)] {
 			continue
 		}
-		if !n.pureExpr(def.rhs, 0) {
+		if !n.pureExpr(def.rhs, 0) || n.callsNewHelper(def.rhs) {
 			continue
 		}
 		uses, ok := n.usesOf(fd, def, obj)
@@ -315,6 +316,55 @@ func (n *normaliser) stable(fd *ast.FuncDecl, def localDef, uses []*ast.Ident) b
 	if len(roots) == 0 {
 		return true
 	}
+	// access paths read by the expression ("u.readMaxBytes", "request.Header"): a write through
+	// "u.bufferPool" does not disturb a read of "u.readMaxBytes"
+	var reads []string
+	var collect func(e ast.Expr)
+	collect = func(e ast.Expr) {
+		switch x := e.(type) {
+		case nil:
+		case *ast.Ident:
+			reads = append(reads, x.Name)
+		case *ast.SelectorExpr:
+			reads = append(reads, types.ExprString(x))
+		case *ast.CallExpr:
+			if sel, ok := x.Fun.(*ast.SelectorExpr); ok {
+				collect(sel.X)
+			}
+			for _, a := range x.Args {
+				collect(a)
+			}
+		case *ast.ParenExpr:
+			collect(x.X)
+		case *ast.StarExpr:
+			collect(x.X)
+		case *ast.UnaryExpr:
+			collect(x.X)
+		case *ast.BinaryExpr:
+			collect(x.X)
+			collect(x.Y)
+		case *ast.IndexExpr:
+			collect(x.X)
+			collect(x.Index)
+		case *ast.SliceExpr:
+			collect(x.X)
+			collect(x.Low)
+			collect(x.High)
+			collect(x.Max)
+		default:
+			reads = append(reads, types.ExprString(e))
+		}
+	}
+	collect(def.rhs)
+	conflicts := func(written ast.Expr) bool {
+		w := types.ExprString(astx.Unparen(written))
+		for _, r := range reads {
+			if w == r || strings.HasPrefix(r, w+".") || strings.HasPrefix(r, w+"[") || strings.HasPrefix(w, r+".") || strings.HasPrefix(w, r+"[") {
+				return true
+			}
+		}
+		return false
+	}
 	lo, hi := def.stmt.End(), def.stmt.End()
 	for _, u := range uses {
 		if u.End() > hi {
@@ -360,12 +410,12 @@ func (n *normaliser) stable(fd *ast.FuncDecl, def localDef, uses []*ast.Ident) b
 					}
 					continue
 				}
-				if x.Pos() >= lo && x.Pos() <= hi && roots[rootOf(l)] {
+				if x.Pos() >= lo && x.Pos() <= hi && roots[rootOf(l)] && conflicts(l) {
 					ok = false
 				}
 			}
 		case *ast.IncDecStmt:
-			if roots[rootOf(x.X)] {
+			if roots[rootOf(x.X)] && conflicts(x.X) {
 				ok = false
 			}
 		case *ast.RangeStmt:
@@ -384,11 +434,11 @@ func (n *normaliser) stable(fd *ast.FuncDecl, def localDef, uses []*ast.Ident) b
 			if x.Pos() < lo || x.Pos() > hi {
 				return true
 			}
-			if sel, isSel := x.Fun.(*ast.SelectorExpr); isSel && mutatingMethod[sel.Sel.Name] && roots[rootOf(sel.X)] {
+			if sel, isSel := x.Fun.(*ast.SelectorExpr); isSel && mutatingMethod[sel.Sel.Name] && roots[rootOf(sel.X)] && conflicts(sel.X) {
 				ok = false
 			}
 			if id, isID := x.Fun.(*ast.Ident); isID {
-				if b, isB := n.info.Uses[id].(*types.Builtin); isB && (b.Name() == "delete" || b.Name() == "copy" || b.Name() == "clear") && len(x.Args) > 0 && roots[rootOf(x.Args[0])] {
+				if b, isB := n.info.Uses[id].(*types.Builtin); isB && (b.Name() == "delete" || b.Name() == "copy" || b.Name() == "clear") && len(x.Args) > 0 && roots[rootOf(x.Args[0])] && conflicts(x.Args[0]) {
 					ok = false
 				}
 			}
@@ -620,4 +670,23 @@ func (n *normaliser) pureBody(f *types.Func) bool {
 		return true
 	})
 	return ok
+}
+
+// callsNewHelper reports whether e calls a first-party function outside the inventory: the
+// result of an extracted helper is not a hoisted expression (the helper is inlined instead).
+func (n *normaliser) callsNewHelper(e ast.Expr) bool {
+	found := false
+	ast.Inspect(e, func(x ast.Node) bool {
+		call, ok := x.(*ast.CallExpr)
+		if !ok {
+			return true
+		}
+		if f, ok := astx.Callee(n.info, call).(*types.Func); ok && f.Pkg() != nil && n.p.ByPath[f.Pkg().Path()] != nil {
+			if fd := n.p.Decl(f); fd != nil && n.base != nil && !n.base.HasFunc(f.Pkg().Path()+"."+FuncName(fd)) {
+				found = true
+			}
+		}
+		return true
+	})
+	return found
 }
